@@ -376,6 +376,9 @@ func sortedKeys[V any](m map[string]V) []string {
 // numbers and positions are replaced by placeholders.
 var (
 	reQuoted = regexp.MustCompile("`[^`]*`|\"[^\"]*\"|'[^']*'")
+	reDotted = regexp.MustCompile(`\.?\b[A-Za-z_][A-Za-z0-9_]*(\.[A-Za-z_][A-Za-z0-9_]*)+\b`)
+	reDigitID = regexp.MustCompile(`\b[A-Za-z_]+[0-9][A-Za-z0-9_]*\b`)
+	reSubject = regexp.MustCompile(`^(field|extension|message|enum|enum value|service|method|oneof|file|option|syntax error) [^ :]+:`)
 	reNumber = regexp.MustCompile(`-?\b\d+(\.\d+)?\b`)
 	rePos    = regexp.MustCompile(`^[^ ]+\.proto:\d+:\d+: `)
 )
@@ -383,6 +386,9 @@ var (
 func normMsg(s string) string {
 	s = rePos.ReplaceAllString(s, "")
 	s = reQuoted.ReplaceAllString(s, "«x»")
+	s = reSubject.ReplaceAllString(s, "$1 «x»:")
+	s = reDotted.ReplaceAllString(s, "«x»")
+	s = reDigitID.ReplaceAllString(s, "«x»")
 	s = reNumber.ReplaceAllString(s, "N")
 	if len(s) > 160 {
 		s = s[:160]
